@@ -11,6 +11,10 @@ MRU_CHOICES = [1, 2, 3, 7, 50, 10240, 10485760, 2 ** 64 - 1]
 
 def gen_cfg(rng, timers=False):
     cfg = {'seg_init': rng.choice(SEG_CHOICES), 'seg_mru': rng.choice(MRU_CHOICES)}
+    if rng.random() < 0.08:
+        # extreme configuration: segment sizes at and beyond 2^63 (file.read() takes a signed size)
+        cfg['seg_init'] = rng.choice([2 ** 63 - 1, 2 ** 63, 2 ** 64 - 1])
+        cfg['seg_mru'] = rng.choice([2 ** 63, 2 ** 64 - 1])
     # adaptive segment size (PID controller on ACK round-trip time) in a third of the runs
     if rng.random() < 0.33:
         cfg['modulate'] = rng.choice([0.001, 0.05, 1.0])
